@@ -1,5 +1,6 @@
 import AdeuModel.Lemmas.Engine
 import AdeuModel.Lemmas.Grow
+import AdeuModel.Lemmas.Attr
 /-
 C01 — tracked edits are fully reversible: the engine patches, it never rewrites.
 
@@ -59,6 +60,13 @@ theorem C01_existing_comments_retained (s : Sess) (edits : List HEdit) :
     s.doc.comments <+: (Doc.applyEdits s edits).1.doc.comments ∧
     s.doc.commentsEx <+: (Doc.applyEdits s edits).1.doc.commentsEx :=
   ⟨(Grows_applyEdits s edits).comments, (Grows_applyEdits s edits).commentsEx⟩
+
+/-- The result differs from the input only by marks attributed to this run: every revision mark of the result is
+one of the input's (identical id / author / date) or one created by this session (its author, its date, a fresh
+id) — for every mixed batch. Earlier authors' tracked changes are never re-labelled. -/
+theorem C01_only_this_runs_marks_are_new (s : Sess) (edits : List HEdit) :
+    ∀ x ∈ revsDoc (Doc.applyEdits s edits).1.doc, x ∈ revsDoc s.doc ∨ Fresh s (Doc.applyEdits s edits).1 x :=
+  (RevOk_applyEdits s edits).revs
 
 /-! Non-vacuity -/
 def sampleRun : Run := { b := some [], i := none, rest := "<w:color w:val=\"FF0000\"/>".toList,
